@@ -972,6 +972,10 @@ def selftest(ctx, which):
         r = subprocess.run([exe, "60"], capture_output=True, text=True)
         log(r.stdout + r.stderr)
         return r.returncode
+    if which == "seeded":
+        import sensitivity
+        only = os.environ.get("VERIF_SEEDED")
+        return sensitivity.run_seeded(ctx, only.split(",") if only else None)
     if which == "sensitivity":
         import sensitivity
         only = os.environ.get("VERIF_MUTANTS")
